@@ -812,6 +812,8 @@ func (c *Compiler) ProcessModuleIncludes(m parse.Node, submodules map[string]par
 		m.AddChildren(smod.ChildrenByType(parse.NodeDataDef)...)
 		m.AddChildren(smod.ChildrenByType(parse.NodeAugment)...)
 		m.AddChildren(smod.ChildrenByType(parse.NodeDeviation)...)
+		m.AddChildren(smod.ChildrenByType(parse.NodeRpc)...)
+		m.AddChildren(smod.ChildrenByType(parse.NodeNotification)...)
 	}
 }
 
